@@ -40,13 +40,20 @@ impl EdgeLocate for OpenEdge {
         &self,
         _section: &Curve2,
         stations: Vec<InscribedCircle>,
-        _front: bool,
+        front: bool,
         _af_tol: f64,
     ) -> Result<(Option<AirfoilEdge>, Vec<InscribedCircle>)> {
-        Ok((
-            Some(AirfoilEdge::open(stations.last().unwrap().circle.center)),
-            stations,
-        ))
+        // The open edge is at the front of the camber line for the leading edge and at the back
+        // for the trailing edge
+        let station = if front {
+            stations.first()
+        } else {
+            stations.last()
+        }
+        .ok_or("Empty inscribed circles container.")?;
+        let edge = AirfoilEdge::open(station.circle.center);
+
+        Ok((Some(edge), stations))
     }
 }
 
